@@ -827,6 +827,7 @@ func c05Run(c *fw.Ctx, i int) {
 	if err := rtmpCanaryMin(s, fmt.Sprintf("c05canary%d", i), cmin); err != nil {
 		c.Violate("canary/other-stream-stalled", err.Error(), nil)
 	}
+	c13Spin(c, "end of case "+cell.Name)
 	if i < 8 {
 		m := msgs[len(msgs)/2]
 		c.Sample(map[string]interface{}{"cell": cell.Name, "class": m.Class, "type": m.Type, "payload_hex": fmt.Sprintf("%x", m.Payload[:min(len(m.Payload), 40)]), "messages_in_case": len(msgs)})
